@@ -181,7 +181,12 @@ pub fn run_c14(a: &Args) {
         }
         // file variant: same document, same graph
         if idx % 4 == 0 {
-            let path = format!("{}/g{}.graphml", tmpdir, idx);
+            // two alternating paths that are never removed between cases: a shorter document is
+            // regularly saved over a longer one
+            let path = format!("{}/g{}.graphml", tmpdir, (idx / 4) % 2);
+            if std::fs::metadata(&path).map(|m| m.len() as usize > text.len()).unwrap_or(false) {
+                ctx::count("reach:shorter-document-saved-over-longer-file");
+            }
             match guard("write_graphml_file", || graphml::write_graphml_file(&g, &path)) {
                 Ok(Ok(())) => {
                     let bytes = std::fs::read(&path).unwrap_or_default();
@@ -203,7 +208,6 @@ pub fn run_c14(a: &Args) {
                 Ok(Err(e)) => fail("write_graphml_file", "io-error", json!(format!("{}", e))),
                 Err(c) => fail("write_graphml_file", &c.class(), c.json()),
             }
-            let _ = std::fs::remove_file(&path);
         }
         if names.iter().any(|s| s.chars().any(|c| "<>&\"'".contains(c))) {
             ctx::count("reach:xml-special-characters-in-names");
